@@ -166,7 +166,7 @@ fn space_for(tier: Tier) -> (Space, usize) {
             s.ast_range("CL", 4, 4, 64, 2);
             s.ast_range("LP", 1, 4, 32, 5);
             s.ast_range("ALT", 1, 3, 32, 4);
-            s.ast_range("FX", 1, 4, 32, 5).ast_range("FXA", 1, 4, 32, 5).ast_range("CLN", 1, 3, 32, 3);
+            s.ast_range("FX", 1, 4, 32, 6).ast_range("FXA", 1, 4, 32, 6).ast_range("CLN", 1, 3, 32, 3);
             s.list("triggers", t, 16);
             s.list("case triggers", case_triggers(false).len() as u64, 16);
             (s, 3)
